@@ -105,7 +105,7 @@ Qed.
 
 (* the positions a call may be asked about, in checkable form *)
 Definition ask_ok (cfg : config) (U : nat -> position -> Prop) (p : position) : Prop :=
-  base_ok p /\ (total p <= 64)%N /\ move p + 40 <= max_terminal_ply /\ is_over p = false /\ c_depth cfg < 40 /\
+  base_ok p /\ (total p <= 64)%N /\ move p + Z.max 0 (c_depth cfg) <= max_terminal_ply /\ is_over p = false /\ c_depth cfg < 40 /\
   (forall d, Z.of_nat d <= Z.max 0 (c_depth cfg) -> U d p).
 
 Lemma call_ok_inst cfg U p : ask_ok cfg U p -> call_ok cfg (PosT U) p.
